@@ -1,4 +1,5 @@
 """C18 — alphabetical-attributes filter only reorders, deterministically."""
+import collections
 import itertools
 
 from h5 import gen, lean, wire
@@ -16,7 +17,7 @@ RULE = ("alpha: all permutations of all attribute sets of size <= 4 (quick) / 5 
         "{None, xlink, xml, xmlns} x local names {a, b, href, A, '\\u00e9'} (exhaustive) + seeded random token streams; "
         "non-trivial = a tag with >= 2 attributes; distinct by canonical encoding")
 
-NS = [None, gen.XLINK_NS, gen.XML_NS, gen.XMLNS_NS]
+NS = [None, gen.XLINK_NS, gen.XML_NS, gen.XMLNS_NS, ""]   # "" = empty-string namespace (DOM setAttributeNS("", ...))
 LOCAL = ["a", "b", "href", "A", "é"]
 
 
@@ -75,7 +76,29 @@ def run(ctx):
             reals.append(real)
             ctx.case("alpha", req, nontrivial=len(ks) >= 2, sample=req if len(ks) >= 2 else None)
         if len(outs) > 1:
-            ctx.fail("order-dependent", "result depends on the incoming attribute order", {"keys": repr(ks)})
+            # recorded: the sort key maps the namespaces None and "" to the same value, so two attributes with one local name,
+            # one in each of them, compare equal and keep their arrival order (the excluded point of C18_key_inj).  The class is
+            # known only if that is the WHOLE difference: all outputs agree once such pairs are put into one fixed order.
+            def norm(line):
+                return line
+            pairs = [(a, b) for a in ks for b in ks if a[0] is None and b[0] == "" and a[1] == b[1]]
+            explained = False
+            if pairs:
+                def canon(attrs):
+                    out = list(attrs)
+                    for i in range(len(out) - 1):
+                        (n1, l1), (n2, l2) = out[i][0], out[i + 1][0]
+                        if l1 == l2 and {n1, n2} == {None, ""} and n1 == "":
+                            out[i], out[i + 1] = out[i + 1], out[i]
+                    return out
+                seen = set()
+                for pm in itertools.permutations(ks):
+                    tok = {"type": "StartTag", "name": "x", "namespace": None, "data": collections.OrderedDict((k, "v%d" % ks.index(k)) for k in pm)}
+                    r = real_filter([tok])[0]["data"]
+                    seen.add(repr(canon(list(r.items()))))
+                explained = len(seen) == 1
+            ctx.fail("order-dependent:none-and-empty-namespace-same-local-name" if explained else "order-dependent",
+                     "result depends on the incoming attribute order", {"keys": repr(ks)})
     names = ["a", "div", "svg", "input"]
     for i in range(ctx.scale(1500, 30000)):
         toks = gen.token_stream(ctx.rng, names, maxlen=8)
